@@ -38,6 +38,7 @@ type TB struct {
 	True  *Term
 	False *Term
 	linc  map[int]*linForm
+	lowRef map[int]bool
 }
 
 func NewTB() *TB {
@@ -305,6 +306,13 @@ func (tb *TB) Eq(a, b *Term) *Term {
 			return tb.Bool(a.Op == b.Op)
 		}
 		return tb.Bool(a.Val == b.Val)
+	}
+	// reference ranges: a reference read from the entry state is below 2^59, the references
+	// of objects allocated since are constants above it
+	if a.Sort == 64 && len(tb.lowRef) > 0 {
+		if b.IsConst() && b.Val >= 1<<59 && tb.isLow(a) || a.IsConst() && a.Val >= 1<<59 && tb.isLow(b) {
+			return tb.False
+		}
 	}
 	if a.Sort != 0 {
 		la, lb := tb.lin(a), tb.lin(b)
@@ -1128,4 +1136,34 @@ func (tb *TB) RewriteUnder(root *Term, lits, nlits map[int]bool, memo map[int]*T
 		stack = stack[:len(stack)-1]
 	}
 	return memo[root.id]
+}
+
+// isLow: t is known to denote a reference of the entry state (at most top0 < 2^59): a small
+// constant, a term marked by the executor (entry parameters, reads of entry heaps), or an
+// ite of such.
+func (tb *TB) isLow(t *Term) bool {
+	for d := 0; d < 64; d++ {
+		if t.IsConst() {
+			return t.Val < 1<<59
+		}
+		if tb.lowRef[t.id] {
+			return true
+		}
+		if t.Op != "ite" {
+			return false
+		}
+		if !tb.isLow(t.Args[1]) {
+			return false
+		}
+		t = t.Args[2]
+	}
+	return false
+}
+
+// MarkLow records that t denotes an entry-state reference.
+func (tb *TB) MarkLow(t *Term) {
+	if tb.lowRef == nil {
+		tb.lowRef = map[int]bool{}
+	}
+	tb.lowRef[t.id] = true
 }
